@@ -197,6 +197,14 @@ theorem C11_gate (v : View) (is : List Nat) :
   · rintro ⟨hne, hall⟩
     exact ⟨hne, fun i hi => (hb i).mpr (Or.inr ⟨hall i hi, hi⟩)⟩
 
+/-- the response time-out in the source is the one modelled by `RG.timeout` (regenerated from `NewGame` in game.go):
+17 seconds, and its callback signals for *every* participant of the group that has not answered, whatever its index -/
+theorem C11_timeout_fact :
+    Facts.gameTimeoutSecs = 17 ∧
+    Facts.gameTimeoutBody =
+      ["states := rg.GetParticipantStates()",
+       "for gamePlayerIdx, isReady := range states { if !isReady { rg.Ready(gamePlayerIdx) } }"] := by decide
+
 /-- the response timeout completes the group as well (unless nobody is asked) -/
 theorem C11_timeout (g : RG) (hne : g.awaited ≠ []) : g.timeout.done = true := by
   unfold RG.timeout
